@@ -6,7 +6,7 @@ SPEC = hdr_spec(
     prefixes={"C09"}, profiles=[("mixed", 4), ("clean", 3), ("saveload", 3)],
     rule=GEN_RULE + "with consolidation, pruning (depths from MaxBranchDepth+2) and reload; dumps query HashHeight, CheckHeader, GetHeader, PreviousHash for EVERY header ever "
          "defined and Hash/Header/GetHeaders for every height, served from memory and from the 1000-header files; non-trivial = at least 8 submissions",
-    props_file="C09", extra=spine_scripts(['files']), thorough_n=5000,
+    props_file="C09", extra=spine_scripts(['files', 'shrink']), thorough_n=5000,
     partial_note="exactness of the height maps (RepoWF: every hash held at exactly one place, maps = positions, Branches.Find answers with the owning branch, heights map sound) "
                  "is a theorem for every state reached by any history of submissions (C09_wf_submissions and its four corollaries); across "
                  "Consolidate/Truncate/Connect/Prune/Reload/Load it is checked by the correspondence and the monitor on every dump, not yet proved. "
